@@ -10,6 +10,18 @@ CHECKS = {
          "Every ordered endpoint pair on a 5x5 (thorough 6x6) lattice, zero-length included, against every half-step probe point and every other segment, in both operand orders, repeated under 5 exact float transforms (2^17, 2^-10, +-2^20 offsets, dyadic offset): raycast on/in, contains-point, collinear-point, intersects (exact + symmetric), contains-segment compared with integer orientation predicates. Complete enumeration, no sampling.",
          "Small-scope: all order types of (segment, point) and (segment, segment) configurations incl. 4 collinear points occur on a 5x5 lattice; coordinates outside the dyadic <=2^20 domain are not covered. Trusted: verif/mc/exact (two formulations cross-checked each run).",
          "DESIGN.md §3 C19"),
+ "C09": ("bounded exhaustive enumeration of ordered object pairs over a pool of all 12 kinds on the real predicates; algebraic laws and representation transparency (oracle-free)",
+         "Every ordered pair of a pool (1,100 quick / 3,500 thorough objects: lattice points as Point/SimplePoint/Feature, all rectangles with their 5-point polygons, 2- and 3-position lines, simple rings, polygons with holes, empties, Multi*/GeometryCollection/FeatureCollection/Feature wraps incl. nested, circles with probes between the 64-gon and the disc and a high-latitude circle): Within/Contains duality, Intersects symmetry, contains => intersects and rect cover, intersects => rects meet, reflexivity, Feature = geometry, Rect = 5-point Polygon, SimplePoint = Point, leaf object = geometry-level predicate.",
+         "No geometry oracle here (C01-C03 own that); law violations that are consequences of listed leaf defects are listed by exact pair.",
+         "DESIGN.md §3 C09"),
+ "C10": ("explicit-state exploration of child-sequence construction trees (AddChild) for the five collection kinds x index thresholds on the real code vs the statement evaluated over the real children",
+         "Every child sequence up to depth 3 (thorough 4) over a 10-letter child alphabet (points, lines, polygons, empty line, empty collection, nested collection, feature; duplicates as repeated letters) for GeometryCollection/FeatureCollection and depth 4 (5) over 4-letter typed alphabets for Multi*, each realised by constructor and by Parse under IndexChildren {0,1,n,n+1,64}; families of 31..200 (1025) children (grid, cluster+outlier, duplicates, mixed with empties); probes: 31 objects of every kind x contains/within/intersects, 170 query rectangles x every stop position of Search; emptiness, rectangle union, point count, child order, Indexed().",
+         "Leaf answers (child vs part) come from the real code, so this isolates wrapper and child-index logic; within is checked for non-collection X (for collection X duality makes it X's contains clause).",
+         "DESIGN.md §3 C10"),
+ "C11": ("bounded exhaustive enumeration of coordinate sequences over a special-float alphabet per axis x all constructible kinds on the real accessors vs direct min/max, exactly rounded midpoint, raw range test",
+         "Every sequence of length 1..3 (thorough 4) over 22 special floats (-0, +-5e-324, +-1, +-90/+-180 with 1-ulp neighbours, +-1e308, +-MaxFloat64) on x, on y and on both axes, realised as 13 object shapes (points, line, polygon, rect, multi*, collections with empties mixed in, features) plus the C09 pool: Rect, Center, Valid, Empty against the definition. (Series rectangles over all vertex sequences are additionally checked inside C18.)",
+         "Circle objects excluded (C13). Midpoint reference in 2200-bit arithmetic.",
+         "DESIGN.md §3 C11"),
  "C07": ("bounded exhaustive enumeration of documents (grammar seeds + all documents within k token deviations + all short token/byte strings) on the real parser vs a reference reader on encoding/json",
          "~110 grammar seeds (9 types x list lengths 0-5 x 2-5 ordinates x member sets, nested collections to depth 3, duplicate/reordered members) and every document within 1 token deviation (delete / insert / substitute over a 24-token alphabet, truncate, swap members, duplicate a member), 2 deviations for seeds of <= 26 tokens (thorough <= 64); every token string of length <= 5 (thorough 6) over a 14-token alphabet; every 1-2 byte string and '{'+2 bytes; under 2 option sets. must-accept texts must be accepted with type/nesting/child order/x,y equal to the reference decoding, must-reject texts rejected with no object, and Parse returns exactly one of (object, error).",
          "Verdicts come from verif/mc/refdoc, written from the statement; texts the statement does not describe (5+ ordinates, null geometry/ordinates, out-of-range numbers, non-standard Circle units) are not judged. Trusted: encoding/json.",
